@@ -2,6 +2,7 @@
 import Driver.Ops.C07
 import Driver.Ops.C17
 import Driver.Ops.Std
+import Driver.Ops.C09
 namespace ZVD
 
 def allOps : OpTable :=
@@ -9,6 +10,7 @@ def allOps : OpTable :=
   ++ opsC07
   ++ opsC17
   ++ opsStd
+  ++ opsC09
 
 def dispatch (op : String) (a : Args) : Except String String :=
   match allOps.find? (·.1 == op) with
